@@ -752,8 +752,10 @@ impl ReCompiler {
                         quantifier_type = Some('*');
                     }
                     Some('{') => {
-                        // bounds are meaningless
-                        quantifier_type = Some('*')
+                        // the lower bound is meaningless, as any number of
+                        // iterations can match the empty string; the upper
+                        // bound still limits what can be consumed
+                        self.bracket_min = 0;
                     }
                     _ => {}
                 }
